@@ -443,6 +443,21 @@ def d_generated_looking_names(m):
 
 
 @_dev
+def d_external_initializers_sharing_a_region(m):
+    """Two (tied) initializers stored in the same region of one data file, each with its own doc string and metadata,
+    plus a third one viewing the same bytes with another shape."""
+    g = m.graph
+    for nm, dims, doc in (("tied_a", [3], "embedding"), ("tied_b", [3], "lm head"), ("tied_c", [1, 3], None)):
+        t = external_tensor(TP.FLOAT, dims, [("location", "tied.bin"), ("offset", "16"), ("length", "12")], name=nm)
+        if doc:
+            t.doc_string = doc
+            e = t.metadata_props.add()
+            e.key, e.value = "role", doc
+        g.initializer.add().CopyFrom(t)
+        g.node.add().CopyFrom(node("Identity", [nm], [nm + "_o"], "n_" + nm))
+
+
+@_dev
 def d_value_info_without_type(m):
     m.graph.value_info.add().CopyFrom(value_info("a", None, "only a doc string"))
 
